@@ -413,11 +413,6 @@ func genOpts() *pgen.Opts {
 	o := pgen.OptsFor(evid.KnownActive, evid.Excluded)
 	o.Small = true
 	o.MaxDepth = 2
-	// the wire walker attributes wire fields to declared fields by number, and
-	// the library truncates numbers to 16 bits (C03/C12 finding): keep numbers
-	// of one struct distinct modulo 65536 so that labels and the map-order
-	// canonicalisation are exact
-	o.NoModCollide, o.ClassModCollide = true, ""
 	if o.MaxRep == 0 || o.MaxRep > 12 {
 		o.MaxRep = 12 // keeps encodings within a few hundred bytes; not a known-class cap
 		o.ClassRep = ""
